@@ -19,6 +19,14 @@ database.
 
 #![warn(missing_debug_implementations, missing_docs)]
 
+#[cfg(raindb_verif)]
+#[macro_use]
+pub mod verif;
+#[cfg(not(raindb_verif))]
+macro_rules! verif_point {
+    ($name:expr) => {};
+}
+
 pub mod db;
 pub use db::DB;
 
